@@ -1,5 +1,6 @@
 import CloakModel.Lemmas.AuthPlainLayout
 import CloakModel.Lemmas.AuthWindow
+import CloakModel.Lemmas.ClientHelloParse
 
 /-! # C06 — Client and server agree on identity, options and session key after the handshake
 
@@ -276,8 +277,271 @@ theorem c06_ws_carrier (C : Crypto) (sk rand ct secret : Bytes) (hr : rand.lengt
 theorem gen_ws_structure : cWsHidden = true ∧ cWsOpenKey = true ∧ wsReplyArgs = true ∧ wsHiddenHeader = true ∧
     umShape = true ∧ parsersRecover = 3 := by decide
 
+/-! ## The direct transport carries the payload: ClientHello of any extension order -/
+
+/-- offset, inside the handshake message, of the first extension -/
+def extsOffset (ch : CH) : Nat := 4 + 2 + 32 + 1 + ch.sid.length + 2 + ch.suites.length + 1 + ch.comp.length + 2
+
+theorem gen_hello_structure :
+    chMagic = [22, 3, 1] ∧ chMagicAtLo = 0 ∧ chMagicAtHi = 3 ∧ chRecHdr = 5 ∧ chType = 1 ∧ chLenCheck = true ∧
+    chAdvances = ["1", "3", "2", "32", "1", "sessionIdLen", "2", "cipherSuitesLen", "1", "compressionMethodsLen", "2"] ∧
+    chExtsRestOfBuffer = true ∧ extTotalIsLen = true ∧ cHelloRecType = 22 ∧ cHelloRecVer = 769 ∧
+    chTakes = ["handshakeType := peeled[pointer]", "length := int(u32(append([]byte{0x00}, peeled[pointer:pointer+3]...)))",
+      "clientVersion := peeled[pointer : pointer+2]", "random := peeled[pointer : pointer+32]", "sessionIdLen := int(peeled[pointer])",
+      "sessionId := peeled[pointer : pointer+sessionIdLen]", "cipherSuitesLen := int(u16(peeled[pointer : pointer+2]))",
+      "cipherSuites := peeled[pointer : pointer+cipherSuitesLen]", "compressionMethodsLen := int(peeled[pointer])",
+      "compressionMethods := peeled[pointer : pointer+compressionMethodsLen]", "extensionsLen := int(u16(peeled[pointer : pointer+2]))"] ∧
+    extLoop = ["for pointer < totalLen", "var typ [2]byte", "copy(typ[:], input[pointer:pointer+2])", "pointer += 2",
+      "length := int(u16(input[pointer : pointer+2]))", "pointer += 2", "data := input[pointer : pointer+length]",
+      "pointer += length", "ret[typ] = data"] := by decide
+
+/-- the header walk of `parseClientHello` on a serialized hello -/
+theorem parseClientHello_serialize (ch : CH) (hv : ch.version.length = 2) (hr : ch.random.length = 32)
+    (hsl : ch.sid.length < 256) (hcs : ch.suites.length < 65536) (hcm : ch.comp.length < 256)
+    (hel : (serExts ch.exts).length < 65536)
+    (hex : ∀ e ∈ ch.exts, e.typ < 65536 ∧ e.data.length < 65536) (hbody : (chBody ch).length < 16777216) :
+    parseClientHello (record22 (serializeCH ch)) =
+      some ⟨serializeCH ch, ch.random, ch.sid, locs (extsOffset ch) ch.exts⟩ := by
+  obtain ⟨g1, g2, g3, g4, g5, _, _, _, _, g6, g7, _⟩ := gen_hello_structure
+  generalize hmsg : serializeCH ch = msg
+  have hrec : record22 msg = [22, 3, 1] ++ (beBytes 2 msg.length ++ msg) := by
+    unfold record22; rw [g6, g7]
+    have : beBytes 2 769 = [3, 1] := by decide
+    rw [this]; simp [List.append_assoc]
+  have hmagic : take? (record22 msg) chMagicAtLo (chMagicAtHi - chMagicAtLo) = some [22, 3, 1] := by
+    rw [hrec, g2, g3]
+    have : ([22, 3, 1] : Bytes) ++ (beBytes 2 msg.length ++ msg) = [] ++ [22, 3, 1] ++ (beBytes 2 msg.length ++ msg) := by simp
+    rw [this]; exact take?_mid _ _ _ _ _ rfl rfl
+  have hmeq : ¬ (([22, 3, 1] : Bytes) ≠ List.map UInt8.ofNat chMagic) := by rw [g1]; decide
+  have hlen5 : ¬ (record22 msg).length < chRecHdr := by
+    rw [hrec, g4]; simp [beBytes_length]
+  have hdrop : List.drop chRecHdr (record22 msg) = msg := by
+    rw [hrec, g4]
+    have : ([22, 3, 1] : Bytes) ++ (beBytes 2 msg.length ++ msg) = ([22, 3, 1] ++ beBytes 2 msg.length) ++ msg := by simp
+    rw [this]; exact List.drop_left' (by simp [beBytes_length])
+  -- the message, field by field
+  have hm : msg = [1] ++ beBytes 3 (chBody ch).length ++ (ch.version ++ ch.random ++ [UInt8.ofNat ch.sid.length] ++ ch.sid ++
+      be16 ch.suites.length ++ ch.suites ++ [UInt8.ofNat ch.comp.length] ++ ch.comp ++ be16 (serExts ch.exts).length ++ serExts ch.exts) := by
+    rw [← hmsg]; rfl
+  have hL3 : (beBytes 3 (chBody ch).length).length = 3 := beBytes_length _ _
+  have hbl : (chBody ch).length = 2 + 32 + 1 + ch.sid.length + 2 + ch.suites.length + 1 + ch.comp.length + 2 + (serExts ch.exts).length := by
+    simp [chBody, hv, hr, be16]; omega
+  have hml : msg.length = 4 + (chBody ch).length := by
+    rw [← hmsg]; simp [serializeCH, hL3]; omega
+  have f0 : msg[0]? = some 1 := by rw [hm]; simp
+  have f1 : take? msg 1 3 = some (beBytes 3 (chBody ch).length) := by
+    rw [hm]; exact take?_mid [1] _ _ 1 3 rfl hL3.symm
+  have f1v : beNat (beBytes 3 (chBody ch).length) = msg.length - 4 := by
+    rw [beNat_beBytes_lt 3 _ (by simpa using hbody), hml]; omega
+  have f2 : take? msg 4 2 = some ch.version := by
+    rw [hm]
+    have : [1] ++ beBytes 3 (chBody ch).length ++ (ch.version ++ ch.random ++ [UInt8.ofNat ch.sid.length] ++ ch.sid ++
+        be16 ch.suites.length ++ ch.suites ++ [UInt8.ofNat ch.comp.length] ++ ch.comp ++ be16 (serExts ch.exts).length ++ serExts ch.exts) =
+        ([1] ++ beBytes 3 (chBody ch).length) ++ ch.version ++ (ch.random ++ [UInt8.ofNat ch.sid.length] ++ ch.sid ++
+        be16 ch.suites.length ++ ch.suites ++ [UInt8.ofNat ch.comp.length] ++ ch.comp ++ be16 (serExts ch.exts).length ++ serExts ch.exts) := by
+      simp only [List.append_assoc]
+    rw [this]; exact take?_mid _ _ _ 4 2 (by simp [hL3]) hv.symm
+  have f3 : take? msg 6 32 = some ch.random := by
+    rw [hm]
+    have : [1] ++ beBytes 3 (chBody ch).length ++ (ch.version ++ ch.random ++ [UInt8.ofNat ch.sid.length] ++ ch.sid ++
+        be16 ch.suites.length ++ ch.suites ++ [UInt8.ofNat ch.comp.length] ++ ch.comp ++ be16 (serExts ch.exts).length ++ serExts ch.exts) =
+        ([1] ++ beBytes 3 (chBody ch).length ++ ch.version) ++ ch.random ++ ([UInt8.ofNat ch.sid.length] ++ ch.sid ++
+        be16 ch.suites.length ++ ch.suites ++ [UInt8.ofNat ch.comp.length] ++ ch.comp ++ be16 (serExts ch.exts).length ++ serExts ch.exts) := by
+      simp only [List.append_assoc]
+    rw [this]; exact take?_mid _ _ _ 6 32 (by simp [hL3, hv]) hr.symm
+  have f4 : msg[38]? = some (UInt8.ofNat ch.sid.length) := by
+    rw [hm]
+    have : [1] ++ beBytes 3 (chBody ch).length ++ (ch.version ++ ch.random ++ [UInt8.ofNat ch.sid.length] ++ ch.sid ++
+        be16 ch.suites.length ++ ch.suites ++ [UInt8.ofNat ch.comp.length] ++ ch.comp ++ be16 (serExts ch.exts).length ++ serExts ch.exts) =
+        ([1] ++ beBytes 3 (chBody ch).length ++ ch.version ++ ch.random) ++ [UInt8.ofNat ch.sid.length] ++ (ch.sid ++
+        be16 ch.suites.length ++ ch.suites ++ [UInt8.ofNat ch.comp.length] ++ ch.comp ++ be16 (serExts ch.exts).length ++ serExts ch.exts) := by
+      simp only [List.append_assoc]
+    rw [this]; exact get?_mid _ _ _ 38 (by simp [hL3, hv, hr])
+  have f4v : (UInt8.ofNat ch.sid.length).toNat = ch.sid.length := by
+    rw [UInt8.toNat_ofNat']; exact Nat.mod_eq_of_lt hsl
+  have f5 : take? msg 39 ch.sid.length = some ch.sid := by
+    rw [hm]
+    have : [1] ++ beBytes 3 (chBody ch).length ++ (ch.version ++ ch.random ++ [UInt8.ofNat ch.sid.length] ++ ch.sid ++
+        be16 ch.suites.length ++ ch.suites ++ [UInt8.ofNat ch.comp.length] ++ ch.comp ++ be16 (serExts ch.exts).length ++ serExts ch.exts) =
+        ([1] ++ beBytes 3 (chBody ch).length ++ ch.version ++ ch.random ++ [UInt8.ofNat ch.sid.length]) ++ ch.sid ++ (
+        be16 ch.suites.length ++ ch.suites ++ [UInt8.ofNat ch.comp.length] ++ ch.comp ++ be16 (serExts ch.exts).length ++ serExts ch.exts) := by
+      simp only [List.append_assoc]
+    rw [this]; exact take?_mid _ _ _ 39 _ (by simp [hL3, hv, hr]) rfl
+  have f6 : rd16 msg (39 + ch.sid.length) = some ch.suites.length := by
+    rw [hm]
+    have : [1] ++ beBytes 3 (chBody ch).length ++ (ch.version ++ ch.random ++ [UInt8.ofNat ch.sid.length] ++ ch.sid ++
+        be16 ch.suites.length ++ ch.suites ++ [UInt8.ofNat ch.comp.length] ++ ch.comp ++ be16 (serExts ch.exts).length ++ serExts ch.exts) =
+        ([1] ++ beBytes 3 (chBody ch).length ++ ch.version ++ ch.random ++ [UInt8.ofNat ch.sid.length] ++ ch.sid) ++
+        be16 ch.suites.length ++ (ch.suites ++ [UInt8.ofNat ch.comp.length] ++ ch.comp ++ be16 (serExts ch.exts).length ++ serExts ch.exts) := by
+      simp only [List.append_assoc]
+    rw [this]; exact rd16_be16' _ _ _ _ hcs (by simp [hL3, hv, hr]; omega)
+  have f7 : take? msg (39 + ch.sid.length + 2) ch.suites.length = some ch.suites := by
+    rw [hm]
+    have : [1] ++ beBytes 3 (chBody ch).length ++ (ch.version ++ ch.random ++ [UInt8.ofNat ch.sid.length] ++ ch.sid ++
+        be16 ch.suites.length ++ ch.suites ++ [UInt8.ofNat ch.comp.length] ++ ch.comp ++ be16 (serExts ch.exts).length ++ serExts ch.exts) =
+        ([1] ++ beBytes 3 (chBody ch).length ++ ch.version ++ ch.random ++ [UInt8.ofNat ch.sid.length] ++ ch.sid ++
+        be16 ch.suites.length) ++ ch.suites ++ ([UInt8.ofNat ch.comp.length] ++ ch.comp ++ be16 (serExts ch.exts).length ++ serExts ch.exts) := by
+      simp only [List.append_assoc]
+    rw [this]; exact take?_mid _ _ _ _ _ (by simp [hL3, hv, hr, be16]; omega) rfl
+  have f8 : msg[39 + ch.sid.length + 2 + ch.suites.length]? = some (UInt8.ofNat ch.comp.length) := by
+    rw [hm]
+    have : [1] ++ beBytes 3 (chBody ch).length ++ (ch.version ++ ch.random ++ [UInt8.ofNat ch.sid.length] ++ ch.sid ++
+        be16 ch.suites.length ++ ch.suites ++ [UInt8.ofNat ch.comp.length] ++ ch.comp ++ be16 (serExts ch.exts).length ++ serExts ch.exts) =
+        ([1] ++ beBytes 3 (chBody ch).length ++ ch.version ++ ch.random ++ [UInt8.ofNat ch.sid.length] ++ ch.sid ++
+        be16 ch.suites.length ++ ch.suites) ++ [UInt8.ofNat ch.comp.length] ++ (ch.comp ++ be16 (serExts ch.exts).length ++ serExts ch.exts) := by
+      simp only [List.append_assoc]
+    rw [this]; exact get?_mid _ _ _ _ (by simp [hL3, hv, hr, be16]; omega)
+  have f8v : (UInt8.ofNat ch.comp.length).toNat = ch.comp.length := by
+    rw [UInt8.toNat_ofNat']; exact Nat.mod_eq_of_lt hcm
+  have f9 : take? msg (39 + ch.sid.length + 2 + ch.suites.length + 1) ch.comp.length = some ch.comp := by
+    rw [hm]
+    have : [1] ++ beBytes 3 (chBody ch).length ++ (ch.version ++ ch.random ++ [UInt8.ofNat ch.sid.length] ++ ch.sid ++
+        be16 ch.suites.length ++ ch.suites ++ [UInt8.ofNat ch.comp.length] ++ ch.comp ++ be16 (serExts ch.exts).length ++ serExts ch.exts) =
+        ([1] ++ beBytes 3 (chBody ch).length ++ ch.version ++ ch.random ++ [UInt8.ofNat ch.sid.length] ++ ch.sid ++
+        be16 ch.suites.length ++ ch.suites ++ [UInt8.ofNat ch.comp.length]) ++ ch.comp ++ (be16 (serExts ch.exts).length ++ serExts ch.exts) := by
+      simp only [List.append_assoc]
+    rw [this]; exact take?_mid _ _ _ _ _ (by simp [hL3, hv, hr, be16]; omega) rfl
+  have f10 : rd16 msg (39 + ch.sid.length + 2 + ch.suites.length + 1 + ch.comp.length) = some (serExts ch.exts).length := by
+    rw [hm]
+    have : [1] ++ beBytes 3 (chBody ch).length ++ (ch.version ++ ch.random ++ [UInt8.ofNat ch.sid.length] ++ ch.sid ++
+        be16 ch.suites.length ++ ch.suites ++ [UInt8.ofNat ch.comp.length] ++ ch.comp ++ be16 (serExts ch.exts).length ++ serExts ch.exts) =
+        ([1] ++ beBytes 3 (chBody ch).length ++ ch.version ++ ch.random ++ [UInt8.ofNat ch.sid.length] ++ ch.sid ++
+        be16 ch.suites.length ++ ch.suites ++ [UInt8.ofNat ch.comp.length] ++ ch.comp) ++ be16 (serExts ch.exts).length ++ serExts ch.exts := by
+      simp only [List.append_assoc]
+    rw [this]; exact rd16_be16' _ _ _ _ hel (by simp [hL3, hv, hr, be16]; omega)
+  have f11 : parseExts msg (msg.length + 1) (39 + ch.sid.length + 2 + ch.suites.length + 1 + ch.comp.length + 2) =
+      some (locs (extsOffset ch) ch.exts) := by
+    have hpre : msg = ([1] ++ beBytes 3 (chBody ch).length ++ ch.version ++ ch.random ++ [UInt8.ofNat ch.sid.length] ++ ch.sid ++
+        be16 ch.suites.length ++ ch.suites ++ [UInt8.ofNat ch.comp.length] ++ ch.comp ++ be16 (serExts ch.exts).length) ++ serExts ch.exts := by
+      rw [hm]; simp only [List.append_assoc]
+    have hpl : ([1] ++ beBytes 3 (chBody ch).length ++ ch.version ++ ch.random ++ [UInt8.ofNat ch.sid.length] ++ ch.sid ++
+        be16 ch.suites.length ++ ch.suites ++ [UInt8.ofNat ch.comp.length] ++ ch.comp ++ be16 (serExts ch.exts).length).length = extsOffset ch := by
+      simp [hL3, hv, hr, be16, extsOffset]; omega
+    have hoff : 39 + ch.sid.length + 2 + ch.suites.length + 1 + ch.comp.length + 2 = extsOffset ch := by
+      simp [extsOffset]
+    have hfuel : ch.exts.length < msg.length + 1 := by
+      have h4 : ∀ es : List Ext, es.length ≤ (serExts es).length := by
+        intro es; induction es with
+        | nil => simp [serExts]
+        | cons e es ih => rw [serExts_cons, List.length_append, serExt_length]; simp; omega
+      have := h4 ch.exts
+      rw [hml, hbl]; omega
+    rw [hoff]
+    obtain ⟨pre, hpre', hpl'⟩ : ∃ pre, msg = pre ++ serExts ch.exts ∧ pre.length = extsOffset ch := ⟨_, hpre, hpl⟩
+    have key := parseExts_correct ch.exts pre (msg.length + 1) hex hfuel
+    rw [hpl', ← hpre'] at key
+    exact key
+  unfold parseClientHello
+  simp only [bind, Option.bind, pure]
+  rw [hdrop]
+  simp only [hmagic, hmeq, if_false, hlen5, f0, g5, f1, f1v, f2, f3, f4, f4v, f5, f6, f7, f8, f8v, f9, f10, f11,
+    ne_eq, not_true_eq_false, show (1 : UInt8).toNat = 1 from rfl]
+
+/-- **C06 (direct transport, any extension order).** Take ANY well-formed ClientHello: arbitrary
+version/suites/compression, arbitrary extensions `before` and `after` in any order (none of the later
+ones being another key_share), a key_share extension whose entry list contains an X25519 entry of 32
+bytes at ANY position after arbitrary other groups.  The server's parser, applied to the record the
+client writes, recovers the hello's random and session id ‖ that X25519 share: with `random` = the
+client's ephemeral public key and session id ‖ share = the 64-byte sealed block, the server obtains
+exactly the client's payload. -/
+theorem c06_tls_carrier (C : Crypto) (sk : Bytes) (ch : CH) (before after : List Ext) (ksBefore ksAfter : List KsEntry)
+    (key secret : Bytes)
+    (hv : ch.version.length = 2) (hr : ch.random.length = 32) (hsid : ch.sid.length = 32)
+    (hcs : ch.suites.length < 65536) (hcm : ch.comp.length < 256) (hel : (serExts ch.exts).length < 65536)
+    (hbody : (chBody ch).length < 16777216)
+    (hexts : ch.exts = before ++ [⟨51, ksData (ksBefore ++ [⟨29, key⟩] ++ ksAfter)⟩] ++ after)
+    (hex : ∀ e ∈ ch.exts, e.typ < 65536 ∧ e.data.length < 65536)
+    (hafter : ∀ e ∈ after, e.typ ≠ 51)
+    (hkb : ∀ k ∈ ksBefore, k.group ≠ 29 ∧ k.group < 65536 ∧ k.key.length < 65536)
+    (hkey : key.length = 32)
+    (hdh : C.dh sk ch.random = some secret) :
+    tlsExtract C sk (record22 (serializeCH ch)) = .ok ch.random (ch.sid ++ key) (fit 32 secret) := by
+  have hparse := parseClientHello_serialize ch hv hr (by omega) hcs hcm hel hex hbody
+  unfold tlsExtract
+  rw [hparse]
+  simp only [unmarshalCH, fit_eq 32 ch.random hr, hdh, gen_ks.2.2.1]
+  -- the key_share extension is the one that is looked up
+  have hlook := lookupExt_last 51 (extsOffset ch) before after ⟨51, ksData (ksBefore ++ [⟨29, key⟩] ++ ksAfter)⟩ rfl hafter
+  rw [hexts, hlook]
+  -- the message around the key-share data
+  generalize hKD : (ksBefore ++ [⟨29, key⟩] ++ ksAfter : List KsEntry) = entries at *
+  have hksd : ksData entries = be16 ((entries.map serKs).flatten).length ++
+      ((ksBefore.map serKs).flatten ++ serKs ⟨29, key⟩ ++ (ksAfter.map serKs).flatten) := by
+    rw [← hKD]; simp [ksData, List.append_assoc]
+  have hdl : (ksData entries).length < 65536 := by
+    have := (hex ⟨51, ksData entries⟩ (by rw [hexts]; simp)).2
+    exact this
+  have htot : ((entries.map serKs).flatten).length < 65536 := by
+    have : (ksData entries).length = 2 + ((entries.map serKs).flatten).length := by simp [ksData, be16]; omega
+    omega
+  -- serializeCH ch = P ++ ksData ++ Q with P.length = the located start
+  obtain ⟨P, Q, hP, hPl⟩ : ∃ P Q, serializeCH ch = P ++ ksData entries ++ Q ∧
+      P.length = extsOffset ch + (serExts before).length + 4 := by
+    refine ⟨[1] ++ beBytes 3 (chBody ch).length ++ (ch.version ++ ch.random ++ [UInt8.ofNat ch.sid.length] ++ ch.sid ++
+        be16 ch.suites.length ++ ch.suites ++ [UInt8.ofNat ch.comp.length] ++ ch.comp ++ be16 (serExts ch.exts).length) ++
+        serExts before ++ be16 51 ++ be16 (ksData entries).length, serExts after, ?_, ?_⟩
+    · simp only [serializeCH, chBody, hexts, serExts_append, serExts_cons, serExt]
+      simp [serExts, List.append_assoc]
+    · simp [beBytes_length, hv, hr, hsid, be16, extsOffset]; omega
+  simp only
+  unfold parseKeyShare
+  simp only
+  have hrd : rd16 (serializeCH ch) (extsOffset ch + (serExts before).length + 4) = some ((entries.map serKs).flatten).length := by
+    rw [hP, hksd]
+    have : P ++ (be16 ((entries.map serKs).flatten).length ++ ((ksBefore.map serKs).flatten ++ serKs ⟨29, key⟩ ++ (ksAfter.map serKs).flatten)) ++ Q =
+        P ++ be16 ((entries.map serKs).flatten).length ++ (((ksBefore.map serKs).flatten ++ serKs ⟨29, key⟩ ++ (ksAfter.map serKs).flatten) ++ Q) := by
+      simp only [List.append_assoc]
+    rw [this]; exact rd16_be16' _ _ _ _ htot hPl.symm
+  rw [hrd]
+  simp only
+  have hloop : ksLoop (serializeCH ch) (extsOffset ch + (serExts before).length + 4) ((entries.map serKs).flatten).length
+      ((serializeCH ch).length + 1) 2 = some key := by
+    have hdecomp : serializeCH ch = (P ++ be16 ((entries.map serKs).flatten).length) ++ (ksBefore.map serKs).flatten ++ serKs ⟨29, key⟩ ++
+        ((ksAfter.map serKs).flatten ++ Q) := by
+      rw [hP, hksd]; simp only [List.append_assoc]
+    have hflat : ((entries.map serKs).flatten).length =
+        ((ksBefore.map serKs).flatten).length + (serKs ⟨29, key⟩).length + ((ksAfter.map serKs).flatten).length := by
+      rw [← hKD]
+      simp only [List.map_append, List.flatten_append, List.length_append, List.map_cons, List.map_nil, List.flatten_cons,
+        List.flatten_nil, List.append_nil]
+    have hfuel : ksBefore.length < (serializeCH ch).length + 1 := by
+      have h4 : ∀ ks : List KsEntry, ks.length ≤ ((ks.map serKs).flatten).length := by
+        intro ks; induction ks with
+        | nil => simp
+        | cons k ks ih => simp only [List.map_cons, List.flatten_cons, List.length_append, serKs_length, List.length_cons]; omega
+      have := h4 ksBefore
+      rw [hdecomp]; simp only [List.length_append]; omega
+    conv => lhs; arg 1; rw [hdecomp]
+    exact ksLoop_find ksBefore _ _ _ 2 _ _ key (by simp [be16, hPl]) hkb hkey
+      (by rw [hflat, serKs_length]; omega) hfuel
+  rw [hloop]
+  simp only [gen_ks.2.2.2.1, List.length_append, hsid, hkey, ne_eq, not_true_eq_false, if_false]
+  rw [fit_eq 64 _ (by simp [hsid, hkey])]
+
+/-- non-vacuity of `c06_tls_carrier`: a hello with GREASE-like junk before and after the key_share
+extension and another, larger share in front of the X25519 one; the hypotheses hold and the model
+parser really returns random, session id ‖ share -/
+def exBefore : List Ext := [⟨0x1a1a, []⟩, ⟨0, [1, 2, 3]⟩]
+def exAfter : List Ext := [⟨43, [2, 3, 4]⟩]
+def exKsBefore : List KsEntry := [⟨0x11ec, List.replicate 40 5⟩]
+def exKsAfter : List KsEntry := [⟨23, List.replicate 9 6⟩]
+def exKey : Bytes := List.replicate 32 4
+def exCH : CH := ⟨[3, 3], List.replicate 32 9, List.replicate 32 7, [19, 1], [0],
+  exBefore ++ [⟨51, ksData (exKsBefore ++ [⟨29, exKey⟩] ++ exKsAfter)⟩] ++ exAfter⟩
+
+set_option maxRecDepth 20000 in
+example : exCH.version.length = 2 ∧ exCH.random.length = 32 ∧ exCH.sid.length = 32 ∧ exKey.length = 32 ∧
+    (∀ e ∈ exAfter, e.typ ≠ 51) ∧ (∀ k ∈ exKsBefore, k.group ≠ 29 ∧ k.group < 65536 ∧ k.key.length < 65536) ∧
+    (serExts exCH.exts).length < 65536 ∧ (chBody exCH).length < 16777216 ∧
+    (∀ e ∈ exCH.exts, e.typ < 65536 ∧ e.data.length < 65536) ∧
+    (parseClientHello (record22 (serializeCH exCH))).map
+        (fun p => (p.random, p.sid, parseKeyShare p.peeled (lookupExt 51 p.exts))) =
+      some (exCH.random, exCH.sid, some exKey) := by
+  refine ⟨rfl, rfl, rfl, rfl, by decide, by decide, by decide, by decide, by decide, by decide⟩
+
 end C06
 
 #print axioms C06.c06_fields
 #print axioms C06.c06_reply
 #print axioms C06.c06_ws
+#print axioms C06.c06_tls_carrier
